@@ -58,6 +58,13 @@ func (f *Setq) Call(s *slip.Scope, args slip.List, depth int) (result slip.Objec
 		}
 		i++
 		result = slip.EvalArg(s, args, i, d2)
+		if vs, ok2 := result.(slip.Values); ok2 {
+			// The variable gets the first value and so does the caller.
+			result = vs.First()
+			if list, ok3 := result.(slip.List); ok3 && len(list) == 0 {
+				result = nil
+			}
+		}
 		s.Set(sym, result)
 	}
 	return
